@@ -1,4 +1,163 @@
-(* Props/C07.v -- bootstrap *)
-From XMT Require Import Base.Prelude Model.Cbk Model.Dns Model.Wrappers.
-Theorem C07_bootstrap : True. Proof. exact I. Qed.
-Print Assumptions C07_bootstrap.
+(* Props/C07.v -- property theorems for C07 (every wrapper stack and transform is lossless).
+   Only statements; every proof is `exact <lemma>`; Print Assumptions under each.
+   zlib, gzip, the AES block function and the packet codec (property C01) are not modelled here:
+   they are universally quantified in the statements together with the hypothesis used. *)
+From XMT Require Import Base.Prelude Model.Cbk Model.Dns Model.Wrappers
+  Proofs.Wrappers Proofs.Cbk Proofs.Dns Proofs.WrapperStack.
+
+(* ---- the stack: for ALL stacks of lossless wrappers, in the order MultiWrapper composes ------ *)
+Theorem C07_stack_roundtrip :
+  forall ws, Forall lossless ws ->
+  forall x, bytes x -> bytes (wrap_stack ws x) /\ unwrap_stack ws (wrap_stack ws x) = Ok x.
+Proof. exact stack_roundtrip. Qed.
+Print Assumptions C07_stack_roundtrip.
+
+(* ---- the elements ----------------------------------------------------------------------------- *)
+Theorem C07_hex_roundtrip : forall x, bytes x -> bytes (hex_enc x) /\ hex_dec (hex_enc x) = Ok x.
+Proof. exact hex_roundtrip. Qed.
+Print Assumptions C07_hex_roundtrip.
+
+Theorem C07_b64_roundtrip : forall x, bytes x -> bytes (b64_enc x) /\ b64_dec (b64_enc x) = Ok x.
+Proof. exact b64_roundtrip. Qed.
+Print Assumptions C07_b64_roundtrip.
+
+Theorem C07_b64shift_roundtrip :
+  forall shift x, bytes x -> bytes (b64t_enc shift x) /\ b64t_dec shift (b64t_enc shift x) = Ok x.
+Proof. exact b64shift_roundtrip. Qed.
+Print Assumptions C07_b64shift_roundtrip.
+
+(* CFB over EVERY block function, every non-empty IV, every length (partial last block included) *)
+Theorem C07_cfb_roundtrip :
+  forall (E : list Z -> list Z) iv x, iv <> [] -> cfb_dec E iv (cfb_enc E iv x) = x.
+Proof. exact cfb_roundtrip. Qed.
+Print Assumptions C07_cfb_roundtrip.
+
+Theorem C07_xor_roundtrip : forall key x, key <> [] -> xor_dec key (xor_enc key x) = x.
+Proof. exact xor_roundtrip. Qed.
+Print Assumptions C07_xor_roundtrip.
+
+(* ---- CBK -------------------------------------------------------------------------------------- *)
+(* the nibble mix applied twice is the identity for all 56 pairs g <> h < 8, overlapping pairs included *)
+Theorem C07_cbk_mix_involutive :
+  forall g h b, (g < 8)%nat -> (h < 8)%nat -> g <> h -> bytes b -> (9 <= length b)%nat ->
+  mix2 g h (mix2 g h b) = b.
+Proof. exact mix2_involutive. Qed.
+Print Assumptions C07_cbk_mix_involutive.
+
+(* Decrypt(Encrypt(b)) = b for every shuffle offsets, every six step pairs below 8, every block of
+   at least 16 bytes (sizes 16, 32, 64, 128 in the code) *)
+Theorem C07_cbk_block_roundtrip :
+  forall offs steps b, Forall valid_step steps -> bytes b -> (16 <= length b)%nat ->
+  blk_decrypt offs steps (blk_encrypt offs steps b) = b.
+Proof. exact cbk_block_roundtrip. Qed.
+Print Assumptions C07_cbk_block_roundtrip.
+
+(* readInput undoes flushOutput on the size+1 buffer, for every table as well *)
+Theorem C07_cbk_buf_roundtrip :
+  forall offs (k : kconst) buf, Forall valid_step (snd k) -> bytes buf -> (16 <= length buf)%nat ->
+  dec_buf offs k (enc_buf offs k buf) = buf.
+Proof. exact cbk_buf_roundtrip. Qed.
+Print Assumptions C07_cbk_buf_roundtrip.
+
+(* the stream with its size+1 framing and count byte: every payload length (empty, multiples of the
+   block size, partial last block), every block size 16..255, constants varying with the block number *)
+Theorem C07_cbk_stream_roundtrip :
+  forall (sz : nat) offs (consts : nat -> kconst),
+  (16 <= sz)%nat -> (sz <= 255)%nat -> (forall k, Forall valid_step (snd (consts k))) ->
+  forall x, bytes x -> cbk_dec sz offs consts (cbk_enc sz offs consts x) = Ok x.
+Proof. exact cbk_stream_roundtrip. Qed.
+Print Assumptions C07_cbk_stream_roundtrip.
+
+(* write chunking: whatever the sequence of Write calls (zero-length ones included), after Close
+   the sink holds the encoding of the concatenation *)
+Theorem C07_cbk_write_chunks :
+  forall (sz : nat) offs (consts : nat -> kconst), (0 < sz)%nat ->
+  forall ws, cbk_run sz offs consts ws = cbk_enc sz offs consts (concat ws).
+Proof. exact cbk_write_chunks. Qed.
+Print Assumptions C07_cbk_write_chunks.
+
+(* ---- DNS -------------------------------------------------------------------------------------- *)
+(* for EVERY domain (any bytes, dots anywhere, labels of any length), both roles, every random
+   draw and every payload (with the encoder as repaired by commit facc2eb) *)
+Theorem C07_dns_roundtrip :
+  forall server domain rnd x, dns_decode (dns_encode server domain rnd x) = Ok x.
+Proof. exact dns_roundtrip. Qed.
+Print Assumptions C07_dns_roundtrip.
+
+(* the encoder as it was: lossless exactly on the legal domains (labels of 1..63 bytes) ... *)
+Theorem C07_dns_roundtrip_old_legal :
+  forall server domain rnd x, legal_domain domain ->
+  dns_decode (dns_encode_with server (dns_labels_old domain) rnd x) = Ok x.
+Proof. exact dns_roundtrip_old_legal. Qed.
+Print Assumptions C07_dns_roundtrip_old_legal.
+
+(* ... and not beyond (regression witness: "example.com." with the payload "hello") *)
+Theorem C07_dns_old_bad_label_refuted :
+  exists d x, dns_decode (dns_encode_with false (dns_labels_old d) (fun _ _ => 0) x) <> Ok x.
+Proof. exact dns_roundtrip_bad_label_refuted. Qed.
+Print Assumptions C07_dns_old_bad_label_refuted.
+
+(* ---- every profile ---------------------------------------------------------------------------- *)
+(* any stack over {hex, base64, zlib, gzip, XOR(key), AES(key, iv), CBK(size, constants)} *)
+Theorem C07_profile_stack_roundtrip :
+  forall (zlib_enc gzip_enc : list Z -> list Z) (zlib_dec gzip_dec : list Z -> res (list Z)),
+  lossless {| w_enc := zlib_enc; w_dec := zlib_dec |} ->
+  lossless {| w_enc := gzip_enc; w_dec := gzip_dec |} ->
+  forall aes : list Z -> list Z -> list Z, (forall key, block_fn_bytes (aes key)) ->
+  forall es, Forall welem_ok es -> forall x, bytes x ->
+  unwrap_stack (map (welem_w zlib_enc gzip_enc zlib_dec gzip_dec aes) es)
+    (wrap_stack (map (welem_w zlib_enc gzip_enc zlib_dec gzip_dec aes) es) x) = Ok x.
+Proof. exact profile_stack_roundtrip. Qed.
+Print Assumptions C07_profile_stack_roundtrip.
+
+(* any transform: none, B64 with any shift, DNS with any domain list, pick and random draws *)
+Theorem C07_transform_roundtrip :
+  forall t x w, bytes x -> tr_sends t x w -> tr_dec t w = Ok x.
+Proof. exact transform_roundtrip. Qed.
+Print Assumptions C07_transform_roundtrip.
+
+(* the full send path followed by the full receive path is the identity on packets, given a packet
+   codec that round-trips (property C01) *)
+Theorem C07_full_path_roundtrip :
+  forall (zlib_enc gzip_enc : list Z -> list Z) (zlib_dec gzip_dec : list Z -> res (list Z)),
+  lossless {| w_enc := zlib_enc; w_dec := zlib_dec |} ->
+  lossless {| w_enc := gzip_enc; w_dec := gzip_dec |} ->
+  forall aes : list Z -> list Z -> list Z, (forall key, block_fn_bytes (aes key)) ->
+  forall (packet : Type) (marshal : packet -> list Z) (unmarshal : list Z -> res packet),
+  (forall p, bytes (marshal p)) -> (forall p, unmarshal (marshal p) = Ok p) ->
+  forall es t p w, Forall welem_ok es ->
+  path_sends packet marshal (map (welem_w zlib_enc gzip_enc zlib_dec gzip_dec aes) es) t p w ->
+  path_recv packet unmarshal (map (welem_w zlib_enc gzip_enc zlib_dec gzip_dec aes) es) t w = Ok p.
+Proof. exact full_path_roundtrip. Qed.
+Print Assumptions C07_full_path_roundtrip.
+
+(* ---- non-vacuity: a concrete stack hex / XOR(3-byte key) / CBK-16 / base64 with overlapping step
+        pairs (|g-h| = 1), a 21-byte payload (42 bytes at the CBK layer: two full blocks and a
+        partial one), the DNS transform with a trailing-dot domain: the hypotheses hold, the wire is
+        not the payload, and the receive path returns it ---- *)
+Definition nv_consts (k : nat) : kconst :=
+  ([3; 250; 7; 11; 13; 17; 19; 23; 29; 31; 37; 41; 43; 47; 53; 59],
+   [(0, 1); (1, 0); (3, 4); (7, 6); (5, 5); (2, 7)]%nat).
+Definition nv_offs : list Z := [9; 8; 7; 6; 5; 4; 3; 2; 1; 0; 255; 254; 253; 252; 251; 250; 249].
+Definition nv_stack : list welem := [WHex; WXor [1; 2; 3]; WCbk 16 nv_offs nv_consts; WB64].
+Definition nv_ws : list wrapper :=
+  map (welem_w (fun x => x) (fun x => x) (fun x => Ok x) (fun x => Ok x) (fun _ b => b)) nv_stack.
+Definition nv_payload : list Z := [0; 255; 16; 32; 7; 9; 200; 100; 50; 25; 12; 6; 3; 1; 128; 64; 77; 88; 99; 11; 22].
+Definition nv_wire : list Z :=
+  dns_encode true [101; 120; 46; 99; 111; 109; 46] (fun k f => k + f) (wrap_stack nv_ws nv_payload).
+
+Example C07_nonvacuous :
+  Forall welem_ok nv_stack /\ bytes nv_payload /\
+  len (wrap_stack nv_ws nv_payload) = 68 /\
+  path_sends (list Z) (fun p => p) nv_ws (TDns true [[101; 120; 46; 99; 111; 109; 46]]) nv_payload nv_wire /\
+  path_recv (list Z) (fun w => Ok w) nv_ws (TDns true [[101; 120; 46; 99; 111; 109; 46]]) nv_wire = Ok nv_payload.
+Proof.
+  split.
+  { repeat constructor; cbn; try lia; try discriminate. }
+  split.
+  { repeat constructor; lia. }
+  split; [vm_compute; reflexivity|]. split.
+  - unfold path_sends, tr_sends. exists [101; 120; 46; 99; 111; 109; 46], (fun k f => k + f).
+    split; [left; reflexivity | reflexivity].
+  - vm_compute. reflexivity.
+Qed.
